@@ -8,8 +8,9 @@ from .families import check_self_compare, check_bigint_truncation
 
 class SubCtx:
     """forwards verdicts of another property's rule code to one aggregated rule of the calling property"""
-    def __init__(self, ctx, rule, tag, allow=None):
+    def __init__(self, ctx, rule, tag, allow=None, inst=None):
         self._c, self._rule, self._tag, self._allow = ctx, rule, tag, allow
+        self._inst = inst        # optional predicate on the instance name: only those instances are forwarded
         self.P, self.F, self.pid, self.tier = ctx.P, ctx.F, ctx.pid, ctx.tier
         self.PX, self.FX = getattr(ctx, 'PX', None), getattr(ctx, 'FX', None)
         self.records = ctx.records
@@ -22,17 +23,17 @@ class SubCtx:
         return self._allow is not None and not any(rule == a or rule.startswith(a) for a in self._allow)
 
     def ok(self, rule, inst, detail='', where=None):
-        if self._skip(rule):
+        if self._skip(rule) or (self._inst is not None and not self._inst(str(inst))):
             return
         self._c.ok(self._rule, '%s:%s:%s' % (self._tag, rule, inst), detail, where)
 
     def bad(self, rule, inst, detail, where=None, key=None):
-        if self._skip(rule):
+        if self._skip(rule) or (self._inst is not None and not self._inst(str(inst))):
             return
         self._c.bad(self._rule, '%s:%s:%s' % (self._tag, rule, inst), detail, where, key=key)
 
     def undecided(self, rule, inst, detail, where=None):
-        if self._skip(rule):
+        if self._skip(rule) or (self._inst is not None and not self._inst(str(inst))):
             return
         self._c.undecided(self._rule, '%s:%s:%s' % (self._tag, rule, inst), detail, where)
 
